@@ -138,6 +138,9 @@ def gen_cases(ctx):
         # seed 0 is a seed like any other
         seed = 0 if u < 0.08 else rng.randrange(10**6) if u < 0.6 else tuple(rng.randrange(256) for _ in range(rng.randint(1, 12)))
         cases.append((cfg, seed, rng.choice([0, 1, 2, 3, 5, 8]), rng.random() < 0.5))
+    # every generator x mode at its boundaries (one frame, odd widths), with a short history
+    for b in G.boundary_configs(rng, seeds=1):
+        cases.append((b[:5], b[5], rng.choice([1, 2]), rng.random() < 0.5))
     return cases
 
 
